@@ -12,7 +12,7 @@ PROPERTY = 'C01'
 
 RULE = ('Typed random STL grammar (arithmetic incl. unary minus/ln/log, six comparisons, Boolean, rise/fall, '
         'prev/next/s_prev/s_next, bounded+unbounded past and future, unless) x random traces of length 1..12 '
-        '(thorough 24) with dyadic values; lanes main/short/deep/bigbound/timecol. Oracle: independent quadratic '
+        '(thorough 24) with dyadic values; lanes main/short/deep/bigbound/timecol and long (few large cases: 16-48 samples, bounds up to 20, up to five variables); one trace in five uses very few distinct values (zeros, ties, plateaus). Oracle: independent quadratic '
         'reference R-dt; result must be n [time,value] pairs with the given time column. Non-trivial = formula has '
         '>=1 temporal/event operator and the reference result is not constant over the trace, or n == 1; '
         'distinct = distinct (formula text, trace, time column) digests.')
